@@ -120,6 +120,20 @@ static std::string mk_setting(Rng &g, int mi) {
 // and hand-spelt costs well above the everyday ranges of mk_setting.  A call then takes 10 ms .. 1 s, so this is drawn
 // rarely, and never for the thread engine (whose instrumentation multiplies the cost).
 static bool g_allow_heavy = false;
+// ... for the thread engine a lighter edition: parameters just past the everyday ranges (where a tree might switch to
+// another code path: a fast loop, a bigger table), cheap enough for instrumented code
+static std::string heavy_lite_setting(Rng &g, int *mi_out) {
+  static const int his[] = {7, 8, 9, 9, 10, 13, 3, 0};
+  int mi = his[g.below(8)]; *mi_out = mi;
+  switch (mi) {
+    case 0: { char buf[256]; std::string salt = rnd_bytes(g, 16); if (!gen_yescrypt_setting(0x0b6, 1ull << 12, 8, 1, 0, (const unsigned char *)salt.data(), salt.size(), buf, sizeof buf)) return std::string(); return std::string(buf) + "$"; }
+    case 3: return ref_gensalt(PREFIX[3], 7, rnd_bytes(g, 16));
+    case 7: case 8: return std::string(PREFIX[mi]) + "rounds=" + std::to_string(g.chance(1, 2) ? g.range(4990, 5010) : g.range(12001, 20000)) + "$" + b64salt(g, (size_t)g.range(1, 16)) + "$";
+    case 9: { static const long edge[] = {8192, 16384, 20000}; return "$sha1$" + std::to_string(edge[g.below(3)] + g.range(-2, 2)) + "$" + b64salt(g, (size_t)g.range(1, 64)) + "$"; }
+    case 10: return "$md5,rounds=" + std::to_string(g.range(9001, 14000)) + "$" + b64salt(g, (size_t)g.range(1, 16)) + "$";
+    default: { unsigned v = (unsigned)g.range(30001, 70000); std::string s = "_"; for (int i = 0; i < 4; i++) { s += B64[v & 63]; v >>= 6; } return s + b64salt(g, 4); }
+  }
+}
 static std::string heavy_setting(Rng &g, int *mi_out) {
   static const int his[] = {0, 1, 2, 3, 7, 8, 9, 9, 10, 13};
   int mi = his[g.below(10)]; *mi_out = mi;
@@ -353,7 +367,7 @@ static void put_req(J &op, const Req &r) {
 
 static J mk_objs(Rng &g, int n) {
   J a = J::arr();
-  for (int i = 0; i < n; i++) { J o = J::obj(); o["align"] = (long long)g.below(16); o["init"] = g.chance(1, 2) ? "zero" : "garbage"; o["gseed"] = (long long)g.below(1000000); a.push(o); }
+  for (int i = 0; i < n; i++) { J o = J::obj(); o["align"] = (long long)g.below(16); o["init"] = g.chance(1, 2) ? "zero" : "garbage"; o["gseed"] = (long long)g.below(1000000); if (g.chance(1, 10)) o["page"] = 1; a.push(o); }
   return a;
 }
 static const char *hash_kind(Rng &g, bool allow_static) {
@@ -887,6 +901,16 @@ static J plan_c08(uint64_t seed, const std::string &tier) {
       size_t ti = (size_t)c % p["tasks"].a.size();
       J op = J::obj(); op["k"] = g.chance(1, 2) ? "crypt_ra" : "crypt_rn"; if (op.str("k") == "crypt_ra") op["slot"] = 0; else op["obj"] = 0;
       op["ph"] = Bytes(std::string("large-memory")).to_json(); op["st"] = Bytes(g.chance(1, 2) ? big : big_setting(g, mi, (int)g.range(6, 11))).to_json(); op["m"] = METHODS[mi]; op["cls"] = "big-memory"; op["huge_ok"] = g.chance(1, 2);
+      J &ops = p["tasks"].a[ti]["ops"]; ops.a.insert(ops.a.begin() + (long)g.below(ops.a.size() + 1), op);
+    }
+  }
+  // one plan in 40: two tasks each make one call with cost parameters just past the everyday ranges
+  if (g.chance(1, 40)) {
+    int mi = 0; std::string hs = heavy_lite_setting(g, &mi);
+    if (!hs.empty()) for (int c = 0; c < 2; c++) {
+      size_t ti = (size_t)c % p["tasks"].a.size();
+      J op = J::obj(); op["k"] = g.chance(1, 2) ? "crypt_r" : "crypt_rn"; op["obj"] = 0;
+      op["ph"] = Bytes(pool.phrases[g.below(pool.phrases.size())]).to_json(); op["st"] = Bytes(hs).to_json(); op["m"] = METHODS[mi]; op["cls"] = "valid-heavy";
       J &ops = p["tasks"].a[ti]["ops"]; ops.a.insert(ops.a.begin() + (long)g.below(ops.a.size() + 1), op);
     }
   }
